@@ -40,6 +40,7 @@ def check(run, prefix="O5"):
         C06.ob_bookkeeping(run, prefix + ".11c")
         C06.ob_parent_certified(run, prefix + ".11d")
         C06.ob_registry(run, prefix + ".11e")
+        C06.ob_triggers(run, prefix + ".11f")
     D.ob_state_mutations(run, "O5.10", ['consensus::votor::Votor', 'consensus::votor::SlotState'], "the per-slot voting flags are what makes the node's votes non-slashable: any other write can re-enable a vote")
     prog = run.program("lib")
     P = prefix
